@@ -41,7 +41,10 @@ ENV = {'classes': [
     [MOD + 'S', [_f('p', ['obj', MOD + 'P']), _f('q', ['obj', MOD + 'Q'], noneable=True, default=None),
                  _f('z', 'any', noneable=True, default=None)]],
 ]}
-MODEL_CLASSES = {c[0] for c in ENV['classes']}
+# A class that is importable but not registered (auto_register = False): seen only with auto_import.
+N_CLASS = [MOD + 'N', [_f('x', 'int'), _f('w', 'any', noneable=True, default=None)]]
+ENV_IMPORT = {'classes': ENV['classes'] + [N_CLASS]}
+MODEL_CLASSES = {c[0] for c in ENV_IMPORT['classes']}
 
 # Which handle semantics of the memory file system the Lean model is asked to mirror: 'shared'
 # (the tree as it is: all handles of a file share one position, F130) or 'perhandle'
@@ -726,6 +729,7 @@ class _Impl:
     from harness import c05_classes
     self.pg, self.pg_io, self.copy, self.pickle, self.tempfile = pg, pg_io, copy, pickle, tempfile
     self.classes = c05_classes.CLASSES
+    self.classes = dict(self.classes, N=c05_classes.N)
     self.cls_of_key = {c.__type_name__: c for c in self.classes.values()}
     self.mod = c05_classes
     from harness import typing_vocab as tv
@@ -1059,11 +1063,12 @@ class _Impl:
       return {'to_json_error': j['err']}
     jw = self.jv_wire(j['ok'])
     model['json'] = jw
-    loaded = self.attempt(lambda: pg.from_json(pg.to_json(v), allow_partial=ap))
+    ai = case.get('auto_import', True)
+    loaded = self.attempt(lambda: pg.from_json(pg.to_json(v), allow_partial=ap, auto_import=ai))
     model['rt'] = {'ok': self.to_wire(loaded['ok'])} if 'ok' in loaded else loaded
     s = pg.to_json_str(v)
     model['json_str'] = self.jv_wire(json.loads(s))
-    loaded_s = self.attempt(lambda: pg.from_json_str(s, allow_partial=ap))
+    loaded_s = self.attempt(lambda: pg.from_json_str(s, allow_partial=ap, auto_import=ai))
     model['rt_str'] = {'ok': self.to_wire(loaded_s['ok'])} if 'ok' in loaded_s else loaded_s
     if case.get('opts'):
       kw = case['opts']
@@ -1375,7 +1380,10 @@ class _Impl:
       if type(r) is not type(spec):
         problems.append('[%s] type' % form)
       elif not (r == spec) or not pg.eq(r, spec):
-        problems.append('[%s] not equal' % form)
+        if not (self.copy.deepcopy(spec) == spec):
+          problems.append('[%s] spec unequal to its own copy' % form)     # an equality defect (F231), not the codec
+        else:
+          problems.append('[%s] not equal' % form)
       elif wire(r) != wire(spec):
         problems.append('[%s] public state differs' % form)
       elif not is_schema:
@@ -1723,6 +1731,13 @@ class C05(Prop):
       if rng.chance(0.3):
         case['opts'] = {'hide_frozen': rng.chance(0.5), 'hide_default_values': rng.chance(0.7)}
       yield case
+    for i in range(60 if quick else 2500):
+      tg = TreeGen(rng)
+      inner = {'o': MOD + 'N', 'a': [['x', rng.choice([0, 7, -3])], ['w', tg.tree(rng.below(3))]]}
+      t = rng.choice([inner, {'l': [1, inner]}, {'d': [['k', inner], ['z', tg.tree(1)]]},
+                      {'o': MOD + 'Q', 'a': [['a', inner], ['b', False], ['n', None]]}])
+      yield {'kind': 'codec', 'value': t, 'ap': tree_has(t, lambda x: isinstance(x, dict) and 'm' in x),
+             'auto_import': rng.chance(0.6)}
     for i in range(n_load):
       sf = rng.chance(0.4)
       ad = (not sf) and rng.chance(0.35)
@@ -1811,7 +1826,8 @@ class C05(Prop):
     if k == 'codec':
       if not is_model_tree(case['value']):
         return None
-      req = {'op': 'codec', 'env': ENV, 'value': case['value'], 'ap': case['ap']}
+      req = {'op': 'codec', 'env': ENV_IMPORT if case.get('auto_import') else ENV, 'value': case['value'],
+             'ap': case['ap']}
       if case.get('opts'):
         req['hide_frozen'] = case['opts']['hide_frozen']
         req['hide_default_values'] = case['opts']['hide_default_values']
@@ -1884,7 +1900,7 @@ class C05(Prop):
         return 'Encodable (Lean) and reserved_shapes (harness) disagree'
       if model_out['encodable_str'] != (not reserved_shapes(case['value'], True)):
         return 'Encodable true (Lean) and reserved_shapes (harness) disagree'
-      if not model_out['conforms']:
+      if not model_out['conforms'] and case.get('auto_import', True) and 'auto_import' not in case:
         return 'the library built a value the model calls non-conforming'
       if case.get('opts'):
         a, b = impl_out['opts_model'], model_out.get('opts')
@@ -1949,6 +1965,8 @@ class C05(Prop):
           return {'signature': sig, 'what': '%s %s round trip of %s: %s' % (form, case['opts'], json.dumps(case['value'])[:300], '; '.join(d))}
       for form in ('obj', 'str', 'pickle', 'deepcopy'):
         d = out['checks'][form]
+        if d and case.get('auto_import') is False and form in ('obj', 'str') and d == ['raises TypeError']:
+          continue        # the class is not registered and auto_import is off: the documented TypeError
         if d:
           if form in ('obj', 'str'):
             shapes = sorted(set(reserved_shapes(case['value'], form == 'str')))
@@ -2242,6 +2260,8 @@ class C05(Prop):
           h.append('codec:has-' + name)
       if not is_model_tree(t):
         h.append('codec:impl-only')
+      if 'auto_import' in case:
+        h.append('codec:auto_import=%s' % case['auto_import'])
       if case.get('opts'):
         h.append('codec:opts:hide_frozen=%s,hide_default=%s' % (case['opts']['hide_frozen'], case['opts']['hide_default_values']))
       if 'model' in out:
